@@ -375,9 +375,11 @@ class MultiPort(BaseIOPort):
                 port.send(message)
 
     def _receive(self, block=True):
+        # Only take what is pending; BaseInput.receive() does the waiting.
+        # (multi_receive(block=True) is an endless generator.)
         self._messages.extend(multi_receive(self.ports,
                                             yield_ports=self.yield_ports,
-                                            block=block))
+                                            block=False))
 
 
 def multi_receive(ports, yield_ports=False, block=True):
